@@ -9,7 +9,15 @@ HARNESSES = [dict(name="aaa", pkg="./internal/aaa/", test="TestVerifC09", timeou
                   files=[("internal/aaa/zz_verif_c09_test.go", "harness/C09/zz_verif_c09_test.go")])]
 
 
+HARNESSES.append(
+    # wire part: the real RADIUS Provider against a loopback accounting server that decodes every request
+    dict(name="radius", pkg="./plugins/auth/radius/", test="TestVerifC09W", timeout=600,
+         files=[("plugins/auth/radius/zz_verif_c09w_test.go", "harness/C09/zz_verif_c09w_test.go")]))
+
+
 def route(case):
+    if case.startswith("W "):
+        return "radius"
     return "aaa_race" if case.startswith("Sr ") else "aaa"
 # first variant: all three repairs (the theorems are proved for it); last: the code as found.
 # c = counter regress undetected, s = Stop without open accounting, a = Active overwrites a restored checkpoint
@@ -33,7 +41,11 @@ RULE = ("One case = one history of the real AAA component with 1-4 sessions (two
         "stats source blocks every handler at its snapshot read until all handlers of the group have reached it or "
         "returned; groups of Released/tick have a schedule-independent outcome and are compared exactly (also under "
         "the race detector), groups with Active/Restored are judged by the Start/Stop counts every interleaving "
-        "allows; each such history is run 5 times and must repeat. Non-trivial: at least one Interim and a Stop or a restart. "
+        "allows; each such history is run 5 times and must repeat. Wire part: the real RADIUS Provider (Start/Update/StopAccounting over a real radiusConn) against a loopback "
+        "UDP accounting server; counters at and around 2^32, 2^33, 2^40, 2^63, 2^64-1 for every status type, sessions "
+        "growing through those boundaries; compared: attributes 40/42/43/52/53/47/48 of every Accounting-Request and the "
+        "monotone monitor on the 64-bit values the server reconstructs. Non-trivial: at least one Interim and a Stop or "
+        "a restart (wire: a counter >= 2^32). "
         "Distinct: by case text.")
 TRUSTED = ["goroutines spawned by one notification (Start/Stop/Update calls, checkpoint Put/Delete) are awaited before "
            "the next notification is delivered: reordering by the scheduler is outside the model",
@@ -225,6 +237,55 @@ def gen_one(rng, nops, big, degenerate=False):
     return " ".join(head + ops), pl.classes
 
 
+WIRE_EDGES = [0, 1, 2 ** 31, 2 ** 32 - 1, 2 ** 32, 2 ** 32 + 1, 2 ** 32 + 2000000, 2 ** 33 - 1, 2 ** 33, 2 ** 33 + 5,
+              3 * 2 ** 32, 2 ** 40 - 1, 2 ** 40, 2 ** 40 + 2 ** 32, 2 ** 48, 2 ** 63, 2 ** 64 - 2 ** 32, 2 ** 64 - 1]
+
+
+def gen_wire(rng):
+    """one accounting session as sent by the provider: Start, Interims, Stop (sometimes out of shape), octet
+    counters growing through the 2^32 / 2^33 / 2^40 boundaries, packets below (rarely above) 2^32"""
+    recs = []
+    r = rng.random()
+    shape = "SIE" if r < 0.7 else rng.choice(["IE", "SE", "SI", "E", "I", "SIESIE", "S"])
+    cur = [0, 0, 0, 0]
+    if rng.random() < 0.5:
+        cur[0] = rng.choice(WIRE_EDGES[:12])
+    if rng.random() < 0.5:
+        cur[1] = rng.choice(WIRE_EDGES[:12])
+
+    def grow():
+        for j in (0, 1):
+            m = rng.random()
+            if m < 0.35:
+                nxt = [e for e in WIRE_EDGES if e >= cur[j]]
+                cur[j] = rng.choice(nxt[:4]) if nxt else cur[j]
+            elif m < 0.8:
+                cur[j] = min(2 ** 64 - 1, cur[j] + rng.choice([0, 1, 1500, 2000000, 2 ** 31, 2 ** 32, 2 ** 32 - 1, 2 ** 36]))
+            elif m < 0.85:
+                cur[j] = rng.randint(0, cur[j])            # a decrease handed to the provider must stay visible
+        for j in (2, 3):
+            m = rng.random()
+            if m < 0.9:
+                cur[j] = min(2 ** 32 - 1, cur[j] + rng.choice([0, 1, 1000, 2 ** 20, 2 ** 31]))
+            elif m < 0.95:
+                cur[j] = rng.choice([2 ** 32 - 1, 2 ** 32, 2 ** 33 + 7])      # beyond what RADIUS can carry
+    for ch in shape:
+        if ch == "S":
+            if rng.random() < 0.85:
+                recs.append("S,0,0,0,0")
+            else:
+                recs.append("S,%d,%d,%d,%d" % tuple(cur))
+        elif ch == "I":
+            for _ in range(rng.choice([1, 2, 3, 5])):
+                grow()
+                recs.append("I,%d,%d,%d,%d" % tuple(cur))
+        else:
+            grow()
+            recs.append("E,%d,%d,%d,%d" % tuple(cur))
+            cur[:] = [0, 0, 0, 0]
+    return "W " + " ".join(recs)
+
+
 def gen_conc(rng, racy):
     """history = sequential prefix, one forced-overlap group, (deterministic groups only) a sequential suffix.
     Deterministic group: 2-4 duplicated Released of one session, optionally Released of other sessions and one tick.
@@ -317,6 +378,17 @@ def gen_cases(rng, tier, budget):
     cases += ["S 1 s7:7:i A,0,5 C/5:20:2:2:2/X,0/A,0,5/X,0", "S 1 s7:7:i A,0,5 C/e/X,0/R,0,6/X,0/X,0", "S 1 s7:7:i C/e/X,0/A,0,5"]
     for i in range(40 if tier == "quick" else 500):
         cases.append(gen_conc(rng, True))
+    # wire part
+    g = 2 ** 32
+    cases += ["W S,0,0,0,0 I,3000000000,4000000000,3000000,4000000 I,%d,%d,4295967,8589939 E,%d,%d,4296967,8589943" % (
+                  g + 1000000, 2 * g + 5000, g + 2000000, 2 * g + 9000),
+              "W S,0,0,0,0 E,%d,%d,1,1" % (g, g), "W S,%d,%d,5,5 I,%d,%d,6,6 E,%d,%d,7,7" % (g, 2 ** 40, g + 1, 2 ** 40, 2 ** 33, 2 ** 40 + g),
+              "W I,%d,0,0,0 E,%d,0,0,0" % (g - 1, g)]
+    for st in "SIE":
+        for e in WIRE_EDGES:
+            cases.append("W %s,%d,%d,%d,%d" % (st, e, (e * 3) % 2 ** 64, e % 2 ** 32, 7))
+    for i in range(250 if tier == "quick" else 5000):
+        cases.append(gen_wire(rng))
     return cases
 
 
@@ -326,13 +398,33 @@ def parts(line):
 
 
 def nontrivial(case, out):
+    if case.startswith("W "):
+        return any(int(r.split(",")[1]) >= 2 ** 32 or int(r.split(",")[2]) >= 2 ** 32 for r in case.split()[1:])
     calls = parts(out)[0]
     if " C/" in case:
         return "E" in calls or "{ok}" in calls
     return ("I" in calls) and ("E" in calls or " B" in case)
 
 
+def classify_wire(case, impl, model):
+    ir, _, im = impl.partition(" ; ")
+    mr, _, mm = model.partition(" ; ")
+    if not im.startswith("mono="):
+        return "G", "wire harness did not complete the case: impl=%r" % impl[:300]
+    recs = case.split()[1:]
+    k = next((i for i, (x, y) in enumerate(zip(ir.split(), mr.split())) if x != y), None)
+    diff = ""
+    if k is not None:
+        diff = ("record #%d (%s) on the wire status:octets-in:octets-out:gigawords-in:gigawords-out:packets-in:packets-out "
+                "impl=%s proved=%s" % (k, recs[k] if k < len(recs) else "?", ir.split()[k], mr.split()[k]))
+    if im == "mono=0" and mm == "mono=1":
+        return "P", "usage counters decoded from the RADIUS Accounting-Requests went backwards; " + diff
+    return "P", "the counters on the wire do not decode to the values handed to the provider; " + diff
+
+
 def classify(case, impl, model):
+    if case.startswith("W "):
+        return classify_wire(case, impl, model)
     ic, idump, iv = parts(impl)[:3]
     mc, mdump, mv = parts(model)[:3]
     names = ["a second Start inside one bracket", "a Stop that answers no open accounting (or a second Stop)",
@@ -380,6 +472,18 @@ def signature(case, impl, models):
 
 def shrink(case):
     t = case.split()
+    if t[0] == "W":
+        recs = t[1:]
+        for i in range(len(recs)):
+            if len(recs) > 1:
+                yield "W " + " ".join(recs[:i] + recs[i + 1:])
+        for i, r in enumerate(recs):
+            a = r.split(",")
+            for q in range(1, 5):
+                for nv in ("0", str(int(a[q]) // 2), str(2 ** 32) if int(a[q]) > 2 ** 32 else a[q]):
+                    if nv != a[q]:
+                        yield "W " + " ".join(recs[:i] + [",".join(a[:q] + [nv] + a[q + 1:])] + recs[i + 1:])
+        return
     k = int(t[1])
     head, ops = t[:2 + k], t[2 + k:]
     for i in range(len(ops)):
@@ -433,6 +537,20 @@ def distribution(cases, impl):
          "snapshots": {"unavailable": 0, "empty": 0, "items": 0}}
     for c, o in zip(cases, impl):
         t = c.split()
+        if t[0] == "W":
+            w = d.setdefault("wire", {"cases": 0, "records": {"S": 0, "I": 0, "E": 0}, "octets_ge_2^32": 0, "octets_ge_2^40": 0,
+                                      "packets_ge_2^32": 0, "stop_ge_2^32": 0, "mono0": 0})
+            w["cases"] += 1
+            for r in t[1:]:
+                a = r.split(",")
+                w["records"][a[0]] += 1
+                v = [int(x) for x in a[1:]]
+                w["octets_ge_2^32"] += max(v[:2]) >= 2 ** 32
+                w["octets_ge_2^40"] += max(v[:2]) >= 2 ** 40
+                w["packets_ge_2^32"] += max(v[2:]) >= 2 ** 32
+                w["stop_ge_2^32"] += a[0] == "E" and max(v[:2]) >= 2 ** 32
+            w["mono0"] += (o or "").endswith("mono=0")
+            continue
         k = int(t[1])
         d["sessions"][k] = d["sessions"].get(k, 0) + 1
         for x in t[2:2 + k]:
